@@ -157,8 +157,17 @@ func buildC20Store(private map[string]bool, publicDotted map[string]bool, viaChi
 	for d := range publicDotted {
 		st.Store.MakeSymbolPublic(d)
 	}
+	// value mappers attached to symbols (public and non-public ones alike) do not change who may use them
+	if c20Mappers {
+		for _, name := range []string{"s", "grp"} {
+			st.Store.MapSymbol(name, boltz.NotNilStringMapper{})
+		}
+	}
 	return st
 }
+
+// c20Mappers: stores are built with value mappers on their string symbols (set per case; workers run one case at a time).
+var c20Mappers bool
 
 var c20NodeKinds = []string{"*ast.AndExprNode", "*ast.OrExprNode", "*ast.NotExprNode", "*ast.BinaryBoolExprNode", "*ast.BinaryDatetimeExprNode", "*ast.BinaryFloat64ExprNode", "*ast.BinaryInt64ExprNode", "*ast.BinaryStringExprNode",
 	"*ast.IsNilExprNode", "*ast.Int64BetweenExprNode", "*ast.Float64BetweenExprNode", "*ast.DatetimeBetweenExprNode", "*ast.InDatetimeArrayExprNode", "*ast.InFloat64ArrayExprNode", "*ast.InInt64ArrayExprNode", "*ast.InStringArrayExprNode",
@@ -217,6 +226,11 @@ func init() {
 
 func runC20(c *core.Ctx, idx int) {
 	r := c.Rand()
+	c20Mappers = idx%3 == 1
+	if c20Mappers {
+		c.Count("cases_with_value_mappers", 1)
+	}
+	defer func() { c20Mappers = false }()
 	w := qx.GenWorld(r, 3, true)
 	g := &qx.Gen{R: r, W: w, Store: qx.Things}
 	allPublic := buildC20Store(nil, nil, false)
